@@ -78,6 +78,7 @@ static Verdict c05_check(const KV &c0, Ctx &ctx) {
     std::string why;
     bool must = api_must_fail(a, why);
     if (!must) why = "method-rejected";
+    if (why.compare(0, 20, "malformed-parameters") == 0) why = "malformed-parameters";
     Method m = a.setting_null ? M_NONE : classify_tag(a.setting);
     if (ctx.st.nontriv(fnv(c.serialize()))) ctx.st.sample(api_describe(a) + " -> fails, errno " + std::to_string(o.err) + ", output field \"" + vis(o.out_field, 20) + "\"");
     ctx.st.cls("c05/" + why + "/" + ENTRY_NAME[a.entry] + "/prior" + std::to_string(a.prior));
@@ -154,6 +155,7 @@ static int c05_grid(Ctx &ctx) {
             ctx.st.distinct_by_construction++;
             std::string why;
             if (!api_must_fail(a, why)) why = "method-rejected";
+            if (why.compare(0, 20, "malformed-parameters") == 0) why = "method-rejected";
             ctx.st.cls(std::string("c05-grid/") + METHOD_NAME[classify_tag(base)] + "/" + why);
             if (ctx.st.samples.size() < 6 && why == "method-rejected") ctx.st.sample("grid: " + api_describe(a) + " -> errno " + std::to_string(o.err) + " token \"" + vis(o.out_field, 16) + "\"");
           } else
